@@ -261,3 +261,69 @@ def rule_once(ctx, R):
             R.finding(fn, "append-outside-hook:and-redispatch",
                       "%s appends commands to the AOF itself (line %d) and also runs them through process_normal_command, whose hook appends them again: the commands appear twice in the log and a non-idempotent one (INCR, APPEND, RPUSH) replays to a different dataset" % (fn.split("::")[-1], b.bb_line(ap[0])), b.loc(ap[0]))
     R.floor("functions_appending_to_the_aof", n)
+
+
+# ---- R-AOF-REOPEN ---------------------------------------------------------------------------------
+LOG_PATH = "storage::aof::AofEngine.file_path"
+WRITER = "storage::aof::AofEngine.writer"
+_CREATES = re.compile(r"^std::fs::(copy|write|File::create|File::create_new|OpenOptions::open|hard_link)(::<.*>)?$")
+_REPLACES = re.compile(r"^std::fs::(rename|remove_file|copy|write|File::create|hard_link)(::<.*>)?$")
+
+
+def _writer_stores(b):
+    """blocks that store a new value into the engine's writer slot (`*guard = Some(..)`)"""
+    out = []
+    for i, bb in enumerate(b.bbs):
+        if bb["cleanup"]:
+            continue
+        for st in bb["s"]:
+            if st["k"] == "=" and "*" in st["l"]["p"]:
+                P = prov.origins(b, st["l"]["l"])
+                if WRITER in P.fields:
+                    out.append(i); break
+    for i, t in b.calls():
+        if re.search(r"Option::<.*>::(replace|insert|take)$|std::mem::(replace|swap)", t["f"] or "") and t["a"] and not op_is_const(t["a"][0]):
+            if WRITER in prov.operand_origins(b, t["a"][0]).fields:
+                out.append(i)
+    return out
+
+
+def rule_reopen(ctx, R):
+    """the log the server appends to IS the file at the log path: a function that puts another
+    file at that path (rename / copy / create onto AofEngine.file_path -- a rewrite) re-opens the
+    writer before it returns successfully; otherwise every later command is appended to the
+    unlinked old file and is missing from the log at the next start.  A rename whose source no
+    call of the function creates cannot succeed and is not counted."""
+    n = 0
+    reopeners = {fn for fn, b in ctx.prog.bodies.items() if fn.startswith("storage::aof::") and "::tests::" not in fn and _writer_stores(b)}
+    for fn, b in sorted(ctx.prog.bodies.items()):
+        if not fn.startswith("storage::aof::") or "::tests::" in fn:
+            continue
+        sites = []
+        for i, t in b.calls():
+            f = t["f"] or ""
+            if not _REPLACES.match(f) or not t["a"]:
+                continue
+            dst = t["a"][-1] if re.search(r"::(rename|copy|hard_link)", f) else t["a"][0]
+            if op_is_const(dst):
+                continue
+            P = prov.operand_origins(b, dst)
+            derived = P.has_call(r"with_extension|with_file_name|PathBuf::push|join")
+            if LOG_PATH in P.fields and not derived:
+                sites.append((i, t))
+        for i, t in sites:
+            f = t["f"] or ""
+            creates = [j for j, tt in b.calls() if j != i and _CREATES.match(tt["f"] or "") and i in cfg.fwd(b, [j])]
+            feasible = bool(creates) or not re.search(r"::rename", f)
+            n += 1
+            rs = shared.result_switch(b, i)
+            succ = rs["ok"] if rs else ([t["t"]] if t["t"] >= 0 else [])
+            re_blocks = set(_writer_stores(b)) | {j for j, tt in b.calls() if callee(tt) in reopeners and callee(tt) != fn}
+            rets = [j for j, bb in enumerate(b.bbs) if bb["t"]["k"] == "return"]
+            p = cfg.path_avoiding(b, succ, rets, re_blocks) if feasible else None
+            R.inst(fn, "replace:%s" % shared.short_callee(f), {"function": fn, "at": b.loc(i), "source_created_here": bool(creates), "writer_reopened_on_every_path": p is None})
+            if p is not None:
+                R.finding(fn, "log-replaced:writer-not-reopened",
+                          "%s puts another file at the log path (%s, line %d) and can return without re-opening the writer: the engine keeps appending to the replaced (unlinked) file, so every command logged after the rewrite is missing from the AOF at the next start"
+                          % (fn.split("::")[-1], shared.short_callee(f), b.bb_line(i)), b.loc(i), ["bb%d line %d" % (x, b.bb_line(x)) for x in p][-8:])
+    R.floor("log_path_replacement_sites", n)
